@@ -57,7 +57,7 @@ def const_expr(ty, v):
     raise ValueError(ty)
 
 
-def handler(idx, c):
+def handler(idx, c, plain=False):
     args = c.get("args", [])
     beh = c.get("beh", {"k": "ok"})
     is_async = c.get("async", True)
@@ -101,10 +101,39 @@ def handler(idx, c):
     else:
         sus = ""
         kw = ""
+    if plain:
+        return ('        #[scpi(cmd = %s)]\n'
+                '        pub %sfn h%d%s(&mut self%s) -> Result<%s, Error> { %s }\n') % (
+                    rust_str(c["cmd"]), kw, idx, lt, params, rty, body)
     return ('        #[scpi(cmd = %s)]\n'
             '        pub %sfn h%d%s(&mut self%s) -> Result<%s, Error> {\n'
             '            rec::call(%d, rec::args_of(|| vec![%s])); %s%s\n'
             '        }\n') % (rust_str(c["cmd"]), kw, idx, lt, params, rty, idx, logargs, sus, body)
+
+
+def plain_module(d):
+    """A module with only the struct, the error handler and the #[interface] impl block
+    (no harness code): for declaration sets whose compile outcome is the observation."""
+    attrs = d.get("attrs", [])
+    out = ["#[allow(unused_imports, dead_code)]", "pub mod %s {" % d["name"],
+           "    use microscpi::{self as scpi, Error};"]
+    if "ErrorCommands" in attrs:
+        out.append("    pub struct I { pub q: scpi::StaticErrorQueue<4> }")
+        out.append("    impl scpi::ErrorCommands for I {")
+        out.append("        fn error_queue(&mut self) -> &mut impl scpi::ErrorQueue { &mut self.q }")
+        out.append("    }")
+    else:
+        out.append("    pub struct I { }")
+        out.append("    impl scpi::ErrorHandler for I { fn handle_error(&mut self, _e: Error) { } }")
+    if "StandardCommands" in attrs:
+        out.append("    impl scpi::StandardCommands for I {}")
+    out.append("    #[scpi::interface(%s)]" % ', '.join(attrs))
+    out.append("    impl I {")
+    for i, c in enumerate(d["cmds"]):
+        out.append(handler(i, c, plain=True))
+    out.append("    }")
+    out.append("}")
+    return '\n'.join(out) + '\n'
 
 
 def iface_module(d):
